@@ -354,7 +354,7 @@ def run(ctx):
         rep.update({"correspondence": "C08", "oracle": why})
         ctx.violation("implementation violates the property (route agreement, not explained by any listed finding): " + why, rep, tag="oracle")
     if ctx.thorough:
-        ok, out = K.leanchecker(ctx, ["Hv.Props.C08", "Hv.Query.Lemmas", "Hv.Query.Bucket", "Hv.Query.Routes", "Hv.Query.Filter", "Hv.Query.Value"])
+        ok, out = K.leanchecker(ctx, ["Hv.Props.C08", "Hv.Query.Lemmas", "Hv.Query.Bucket", "Hv.Query.SameKind", "Hv.Query.Routes", "Hv.Query.Filter", "Hv.Query.Value"])
         ctx.cov["leanchecker"] = "ok" if ok else out[-500:]
         if not ok:
             ctx.violation("leanchecker rejected the compiled proofs", {"log": out[-2000:]}, tag="leanchecker", found_input=False)
